@@ -321,7 +321,10 @@ def run(tier):
                     ck.ob(key, 'UNDECIDED', f"analysis lost: {ex}")
     # purity / determinism
     imp = impurities(c, entry_keys)
-    ck.note('functions_in_call_graph', len(imp))
+    from engine.effects import reachable
+    ck.note('impure_constructs', len(imp))
+    ck.count('functions_in_call_graph', len(reachable(c, entry_keys)))
+    ck.floor('functions_in_call_graph', 40)
     if imp:
         fnk, why = imp[0]
         ck.ob('C11/purity', 'REFUTED', f"{fnk} {why} ({len(imp)} impure constructs): results may depend on something other than the input image")
